@@ -47,11 +47,13 @@ CFG = {
 def _scn(draw):
     tree_extra = draw(st.sampled_from([None, None, "prefix", "deep"]))
     scn = draw(st.one_of(hist.scenarios(CFG), hist.scenarios(dict(CFG, final=["create_sf"]))))
+    used = hist.top_names_used(scn)
     if tree_extra == "prefix":
         for n in draw(st.sampled_from([["s", "s2"], ["s", "s2", "s.txt"], ["A", "AA", "A A"]])):
-            scn["tree"].setdefault(n, {"f" + n: "c" + n})
-    elif tree_extra == "deep":
-        scn["tree"].setdefault("d1", {"d2": {"d3": {"d4": {"leaf": "x"}, "f3": "y"}, "f2": "z"}, "f1": "w"})
+            if n not in used:
+                scn["tree"][n] = {"f" + n: "c" + n}
+    elif tree_extra == "deep" and "d1" not in used:
+        scn["tree"]["d1"] = {"d2": {"d3": {"d4": {"leaf": "x"}, "f3": "y"}, "f2": "z"}, "f1": "w"}
     pre = []
     if tree_extra:
         dirs = [d for d in gen.tree_dirs(scn["tree"]) if isinstance(_node(scn["tree"], d), dict)]
